@@ -167,6 +167,20 @@ extern "C" void harness() {
 #endif
         CHECK(g == before, "two histories that denote the same graph compare equal");
     }
+#elif Q == 10
+    // weighted classes: an edge of weight 2^70 added and removed again, or a weight set to 2^70 and back, leaves the same graph; the
+    // running total has meanwhile been rounded (2^70 + small is not representable), and the verdict must not depend on that history
+#if KIND >= 4
+    if (NG > 0) {
+        G before = g;
+        unsigned a = nd(NG), b = nd(NG);
+        const double BIG = 1180591620717411303424.0;   // 2^70
+        if (A.C[a][b]) { double w = A.lab[a][b]; g.setEdgeWeight(a, b, BIG); g.setEdgeWeight(a, b, w); REACH("a weight was set to 2^70 and restored"); }
+        else { g.addEdge(a, b, BIG); g.removeEdge(a, b); REACH("an edge of weight 2^70 was added and removed again"); }
+        CHECK(g == before, "two histories that denote the same weighted graph compare equal, whatever rounding the running total went through");
+        CHECK(!(g != before), "!= is the negation of ==");
+    }
+#endif
 #elif Q == 6 || Q == 7
     // a copy is unaffected by later changes to its source (observed through the copy's own observers)
 #if Q == 6
